@@ -11,6 +11,7 @@ import (
 	"go/types"
 	"net/http"
 	"net/textproto"
+	"sort"
 	"strconv"
 	"strings"
 
@@ -1260,7 +1261,49 @@ func init() {
 		bpkg := fr.i.prog.ImportedPackage("bufio")
 		w := bw[structFieldIndex(bpkg.Type("Writer").Type(), "wr")].(iface)
 		fr.i.ex.stubLog = append(fr.i.ex.stubLog, mkString(append(append(strBytes("xml.Encode "+toStringSym(args[1])+" indent="), strBytes(indent)...))))
-		call(fr.i, fr, token.NoPos, methodOf(fr.i, w, "Write"), []value{w.v, strBytes("<xml>")})
+		// an empty or nil slice and a nil pointer encode to zero bytes (nothing is written)
+		empty := false
+		switch v := args[1].(iface).v.(type) {
+		case []value:
+			empty = len(v) == 0
+		case *value:
+			empty = v == nil
+		}
+		if !empty {
+			call(fr.i, fr, token.NoPos, methodOf(fr.i, w, "Write"), []value{w.v, strBytes("<xml>")})
+		}
 		return iface{}
 	}
+}
+
+// ---- sort.Slice / sort.SliceStable (the real ones swap through reflectlite).
+// The host's implementation is the same algorithm as the target's standard
+// library (same Go release), so the resulting permutation is the real one.
+func init() {
+	sorter := func(stable bool) externalFn {
+		return func(fr *frame, args []value) value {
+			x, ok := args[0].(iface).v.([]value)
+			if !ok {
+				panic(targetPanic{iface{fr.i.runtimeErrorString, "sort.Slice: not a slice"}})
+			}
+			less := func(a, b int) bool {
+				r := call(fr.i, fr, token.NoPos, args[1], []value{a, b})
+				switch r := r.(type) {
+				case bool:
+					return r
+				case symVal:
+					return fr.i.ex.Branch(r.t)
+				}
+				panic(engineError("sort less result"))
+			}
+			if stable {
+				sort.SliceStable(x, less)
+			} else {
+				sort.Slice(x, less)
+			}
+			return nil
+		}
+	}
+	externals["sort.Slice"] = sorter(false)
+	externals["sort.SliceStable"] = sorter(true)
 }
